@@ -55,6 +55,8 @@ type Verifier struct {
 	pureCalls        map[string]bool
 	symDepth         int
 	opaqueCalls      bool
+	opaqueWrites     map[string][]int // option opaque-writes F:k: the opaque callee F overwrites what its k-th argument (receiver = 0) points to
+	structSlices     bool // option struct-slices: slices of scalar-leaf aggregates are modelled leaf by leaf (SoAV)
 	escaped          map[*Object]bool
 	contains         map[*Object][]Value
 	opaqueNames      map[string]bool
@@ -987,6 +989,8 @@ func (fr *Frame) havocObject(st *State, o *Object, label string) {
 // freshOfType: fresh symbolic content for an object of type t, keeping pointer-shaped parts of cur.
 func (v *Verifier) freshOfType(name string, t types.Type, cur Value) Value {
 	switch c := cur.(type) {
+	case *SoAV:
+		return v.freshLike(name, c)
 	case *ArrV:
 		arr := v.F.Var(name+"@arr", c.Arr.S)
 		if ii, ok := intKind(c.Elem); ok && !v.isAbstract(c.Elem) {
